@@ -4,9 +4,9 @@ E1 (bounded exhaustive enumeration of inputs against the definitions in mc/ref_c
 
   subsets3   every non-empty A subset of S<=3, every 1 <= m <= n <= 4
   n4         S<=3-part x subsets of S4 (few / almost all elements), n = 4, every m <= 4
-  classes    A = Av(B) cut at length n (classical bases and every single mesh pattern of
-             length <= 2), n = 5 (6), m <= 4
-  named      eight named families (own definitions) at every (m, n) <= (4, 6)
+  n5         part of length <= 4 (nothing, everything, Av(p)) x S5-subsets (few / almost all), n = 5
+  classes    A = Av(B) cut at n and the complements of such sets (classical bases, every single
+             mesh pattern of length <= 2), fourteen named families, n = 5, 6, m <= 4
   private    the algorithm's own containment tests against permutation-in-mesh and mesh-in-mesh
              containment; maximal_mesh_pattern_of_occurrence
   auto       auto_bisc(predicate): the returned description coincides with the predicate on S<=8
@@ -23,7 +23,6 @@ from __future__ import annotations
 import contextlib
 import io
 import itertools
-import sys
 
 from .. import refmodel as R
 from .. import ref_c17 as F
@@ -467,8 +466,11 @@ def n5_lowers():
     return low
 
 
-def n5_sizes(quick):
-    return (1,) if quick else (1, 119, 120)
+def n5_sizes(quick, li):
+    """Sizes of the S5-part for lower part number li (0 = nothing, 1 = everything <= 4)."""
+    if quick:
+        return (1,)
+    return (1, 2, 118, 119, 120) if li < 2 else (1, 119, 120)
 
 
 def n5_ms(quick):
@@ -479,12 +481,11 @@ def n5_subsets(sizes):
     S5 = R.perms(5)
     out = []
     for r in sizes:
-        if r == 1:
-            out.extend((p,) for p in S5)
-        elif r == 119:
-            out.extend(tuple(q for q in S5 if q != p) for p in S5)
-        elif r == 120:
-            out.append(tuple(S5))
+        if r <= 2:
+            out.extend(itertools.combinations(S5, r))
+        elif r >= 118:
+            for gone in itertools.combinations(S5, 120 - r):
+                out.append(tuple(q for q in S5 if q not in gone))
         else:
             raise ValueError(r)
     return out
@@ -494,7 +495,7 @@ def shard_n5(shard):
     li, lo, hi, quick = shard
     low = n5_lowers()[li]
     cases = []
-    for sub in n5_subsets(n5_sizes(quick))[lo:hi]:
+    for sub in n5_subsets(n5_sizes(quick, li))[lo:hi]:
         for m in n5_ms(quick):
             cases.append((low + sub, m, 5))
     return run_cases(cases)
@@ -509,10 +510,10 @@ def f12_member(A, m, n, quick):
         return True
     if n == 5:
         if not _LOW5:
-            _LOW5.append(set(n5_lowers()))
+            _LOW5.append({low: li for li, low in reversed(list(enumerate(n5_lowers())))})
         s5 = sum(1 for p in A if len(p) == 5)
-        return (s5 in n5_sizes(quick) and m in n5_ms(quick)
-                and tuple(p for p in A if len(p) <= 4) in _LOW5[0])
+        li = _LOW5[0].get(tuple(p for p in A if len(p) <= 4))
+        return li is not None and s5 in n5_sizes(quick, li) and m in n5_ms(quick)
     if n > 4:
         return False
     s4 = sum(1 for p in A if len(p) == 4)
@@ -1045,11 +1046,12 @@ def run(ctx, only=None):
                             + ("" if quick else "; every one of the 1024 S<=3-parts x S4-subsets of size 1,23,24"))
     if want("n5"):
         table(5)
-        total = len(n5_subsets(n5_sizes(quick)))
         jobs += [("n5", "shard_n5", (li, lo, hi, quick)) for li in range(10)
-                 for lo, hi in chunks(total, 24)]
+                 for lo, hi in chunks(len(n5_subsets(n5_sizes(quick, li))), 24 if quick else 60)]
         ctx.bounds["n5"] = ("n=5, m in %s; part of length<=4 in {nothing, everything, Av(p) for p in "
-                            "S2 u S3} x S5-subsets of size %s" % (list(n5_ms(quick)), list(n5_sizes(quick))))
+                            "S2 u S3} x S5-subsets of size %s%s"
+                            % (list(n5_ms(quick)), list(n5_sizes(quick, 2)),
+                               "" if quick else "; for nothing/everything also sizes 2 and 118"))
     if want("subsets3"):
         for U in (2, 3, 4, 5):
             table(U)
@@ -1109,7 +1111,7 @@ def run(ctx, only=None):
                  for kp in (0, 1, 2) for kq in (0, 1) if kq <= kp
                  for lo, hi in chunks(len(mesh_pool(kp, None if kp < 2 else 1)), 8)]
 
-    payloads = take_violations(ctx, ctx.pmap(shard_any, jobs))
+    payloads = take_violations(ctx, jobs, ctx.pmap(shard_any, jobs))
     auto_res = []
     for (fam, _, sh), pl in zip(jobs, payloads):
         if fam == "auto":
@@ -1136,7 +1138,7 @@ def run(ctx, only=None):
         _ENTRIES = sorted(entries, key=lambda e: (len(e[0]), e[0], sorted(map(sorted, e[1]))))
         jobs = [("private", "shard_priv_learned", (lo, hi, tmax))
                 for lo, hi in chunks(len(_ENTRIES), max(1, len(_ENTRIES) // 64))]
-        take_violations(ctx, ctx.pmap(shard_any, jobs))
+        take_violations(ctx, jobs, ctx.pmap(shard_any, jobs))
         ctx.bounds["private"] = {
             "maximal_mesh_pattern_of_occurrence": "every index subset of every text of length <= %d" % (5 if quick else 6),
             "perm_contains_cl_patt(s)_many_shadings": (
@@ -1176,17 +1178,22 @@ def shard_any(job):
 PER_SUB = 6
 
 
-def take_violations(ctx, results):
-    """results: payloads of shard_any in job order (simplest first).  Re-reports the first PER_SUB
-    violations of every sub-check; returns the inner payloads."""
+FAMILY_RANK = {"subsets3": 0, "n4": 1, "n5": 2, "classes": 3, "private": 4, "auto": 5}
+
+
+def take_violations(ctx, jobs, results):
+    """results: payloads of shard_any for jobs.  Re-reports the first PER_SUB violations of every
+    sub-check, simplest family first, job order (= simplest first) within a family; returns the
+    inner payloads in job order."""
     kept = {}
-    out = []
-    for res in results:
+    out = [None] * len(jobs)
+    order = sorted(range(len(jobs)), key=lambda i: (FAMILY_RANK[jobs[i][0]], i))
+    for i in order:
+        res = results[i]
         if res is None:          # shard aborted by a library exception: reported by the pool itself
-            out.append(None)
             continue
         payload, viols, nviol = res
-        out.append(payload)
+        out[i] = payload
         ctx.nviol += nviol
         for v in viols:
             k = kept.setdefault(v["sub"], [])
@@ -1210,10 +1217,6 @@ class _Only(Partial):
     def violation(self, sub, case, detail=None, sig=None):
         if sub == self.sub:
             self.target.violation(sub, case, detail, sig)
-
-
-def _tt(x):
-    return tuple(tuple(v) if isinstance(v, list) else v for v in x)
 
 
 def replay(ctx, rec):
